@@ -216,7 +216,17 @@ def facts(snap, F):
     F.try_add("fullInfoCatch", "List String", lambda: lstr(hs(pm()["memory_full_info"], 0, 1)), "Process.memory_full_info: smaps_rollup fallback")
     F.try_add("ppidMapCatch", "List String", lambda: lstr(hs(extract.find_def(lin, "ppid_map"), 0, 1)), "ppid_map(): except classes around reading /proc/<pid>/stat")
     F.try_add("asDictCatch", "List String", lambda: lstr(hs(fm()["as_dict"], 0, 2)), "psutil.Process.as_dict: classes replaced by ad_value")
-    F.try_add("iterCatch", "List String", lambda: lstr(hs(extract.find_def(ini, "process_iter"), 0, 1)), "process_iter: classes that drop the pid")
+    def iter_catch():
+        """process_iter: the except clause whose handler drops the pid (`remove(pid)`), wherever it sits among the
+        function's other handlers (since 4d302c5 the drain loop has an `except KeyError: break` of its own)"""
+        fn = extract.find_def(ini, "process_iter")
+        hit = [names for names, node in handlers_of(fn)
+               if any(isinstance(n, ast.Call) and ast.unparse(n.func) == "remove" for n in ast.walk(node))]
+        if len(hit) != 1:
+            raise NotRecognised("process_iter: %d except clauses call remove(pid)" % len(hit))
+        return hit[0]
+
+    F.try_add("iterCatch", "List String", lambda: lstr(iter_catch()), "process_iter: classes that drop the pid")
     F.try_add("childrenCatch", "List String", lambda: lstr(hs(fm()["children"], 0, 2)), "psutil.Process.children (non recursive)")
     F.try_add("childrenRecCatch", "List String", lambda: lstr(hs(fm()["children"], 1, 2)), "psutil.Process.children (recursive branch)")
     F.try_add("parentCatch", "List String", lambda: lstr(hs(fm()["parent"], 0, 1)), "psutil.Process.parent")
